@@ -351,7 +351,10 @@ def check(src, rep):
     # text type verbatim in the grammar
     vs = content.a["cases"]
     vstr = next((s for k, s in vs.items() if isinstance(k, EnumVal) and k.value == 10), None)
-    if not (isinstance(vstr, N) and vstr.kind == "PascalString"):
+    if isinstance(vstr, N) and vstr.kind == "PascalString" and isinstance(vstr.a.get("len"), N) and not (vstr.a["len"].a.get("size") == 1 and not vstr.a["len"].a.get("signed")):
+        rep.violation("R5", "aidon.Element", "visible-string", f"the length of a visible string is parsed as `{vstr.a['len'].a.get('type')}` instead of one unsigned octet: texts of 128..255 characters are "
+                      "misread (the following octets are taken as part of the length)", file, content.line or 1)
+    elif not (isinstance(vstr, N) and vstr.kind == "PascalString"):
         rep.violation("R5", "aidon.Element", "visible-string", "visible-string content is not a plain length-prefixed ASCII string", file, content.line or 1)
     # ---------------------------------------------------------------- R6
     rs = list(routes(frame, body))
@@ -371,7 +374,14 @@ def check(src, rep):
             rep.undecide(f"R6 public normalisers outside the interpreted subset: {r1[:2]} / {r2[:2]}")
     else:
         a1 = a2 = None
+    ts6 = None
     if not ok6 and None in tg.values() and len(rs) == 1:
+        from sa.decoders import parse_target_sets
+        ts6 = parse_target_sets(M, MOD)
+    if ts6 is not None and all(ts6.get(k_) for k_ in tg) and (ts6.get("decode_frame_content") != {"LlcPdu"} or ts6.get("decode_notification_body") != {"NotificationBody"}):
+        rep.violation("R6", "aidon", "frame-body", "an entry point does not parse its input with its own grammar (frames with LlcPdu, bare bodies with NotificationBody): a frame is cut up "
+                      "by hand or handed to the other grammar, so frame and bare-body decoding can disagree", file, 1, witness=f"grammars reached: { {k_: sorted(v_) for k_, v_ in ts6.items()} }")
+    elif not ok6 and None in tg.values() and len(rs) == 1:
         rep.undecide(f"R6 cannot see which grammar the entry points parse their input with ({tg})")
     elif ok6:
         rep.ok("R6", "frame = body", "LlcPdu wraps the same NotificationBody grammar object; both entry points hand its list_items to the same normaliser")
